@@ -41,20 +41,108 @@ impl Drop for PortLease {
     }
 }
 
+/// Ports for the subject's own listeners are taken from BELOW the kernel's ephemeral range:
+/// neither `bind(0)` nor `connect()` of any process ever picks them, so the window between
+/// our probe and the subject's `bind` can only be hit by another fixed-port user, and a
+/// connect-retry loop towards a port that is not listening yet can never self-connect (source
+/// port == destination port). Ports named in the repository's own tests are left alone.
+struct Pool {
+    lo: u16,
+    size: u16,
+    excluded: HashSet<u16>,
+    next: std::sync::atomic::AtomicU32,
+}
+
+static POOL: std::sync::OnceLock<Pool> = std::sync::OnceLock::new();
+
+fn pool() -> &'static Pool {
+    POOL.get_or_init(|| {
+        let eph_lo = std::fs::read_to_string("/proc/sys/net/ipv4/ip_local_port_range").ok().and_then(|t| t.split_whitespace().next().and_then(|x| x.parse::<u32>().ok())).unwrap_or(32768);
+        let hi = eph_lo.clamp(12000, 60000) as u16;
+        let lo = hi - 10000;
+        let mut excluded = HashSet::new();
+        fn scan(dir: &std::path::Path, out: &mut HashSet<u16>, depth: u32) {
+            let Ok(rd) = std::fs::read_dir(dir) else { return };
+            for e in rd.flatten() {
+                let p = e.path();
+                if p.is_dir() {
+                    if depth < 4 {
+                        scan(&p, out, depth + 1);
+                    }
+                } else if p.extension().is_some_and(|x| x == "rs") {
+                    if let Ok(t) = std::fs::read_to_string(&p) {
+                        let b = t.as_bytes();
+                        let mut i = 0;
+                        while i < b.len() {
+                            if b[i].is_ascii_digit() {
+                                let st = i;
+                                while i < b.len() && b[i].is_ascii_digit() {
+                                    i += 1;
+                                }
+                                if (4..=5).contains(&(i - st)) {
+                                    if let Ok(n) = t[st..i].parse::<u16>() {
+                                        out.insert(n);
+                                    }
+                                }
+                            } else {
+                                i += 1;
+                            }
+                        }
+                    }
+                }
+            }
+        }
+        for d in ["/repo/penguin/src", "/repo/penguin-mux/src", "/repo/async-acceptor/src", "/repo/penguin-socks/src"] {
+            scan(std::path::Path::new(d), &mut excluded, 0);
+        }
+        let seed = std::process::id().wrapping_mul(7919) ^ std::time::SystemTime::now().duration_since(std::time::UNIX_EPOCH).map_or(0, |d| d.subsec_nanos());
+        Pool { lo, size: 10000, excluded, next: std::sync::atomic::AtomicU32::new(seed) }
+    })
+}
+
+pub fn port_pool_range() -> (u16, u16) {
+    let p = pool();
+    (p.lo, p.lo + (p.size - 1))
+}
+
 pub fn lease_port(udp: bool) -> PortLease {
-    for _ in 0..1000 {
-        let port = if udp {
-            std::net::UdpSocket::bind("127.0.0.1:0").and_then(|s| s.local_addr()).map(|a| a.port())
-        } else {
-            std::net::TcpListener::bind("127.0.0.1:0").and_then(|s| s.local_addr()).map(|a| a.port())
-        };
-        let Ok(port) = port else { continue };
-        let mut g = RESERVED.lock().unwrap_or_else(std::sync::PoisonError::into_inner);
-        if g.get_or_insert_with(HashSet::new).insert((udp, port)) {
+    let p = pool();
+    for _ in 0..5000 {
+        // 7 is coprime to the pool size: every port comes up
+        let k = p.next.fetch_add(7, Ordering::Relaxed);
+        let port = p.lo + (k % u32::from(p.size)) as u16;
+        if p.excluded.contains(&port) {
+            continue;
+        }
+        {
+            let mut g = RESERVED.lock().unwrap_or_else(std::sync::PoisonError::into_inner);
+            if !g.get_or_insert_with(HashSet::new).insert((udp, port)) {
+                continue;
+            }
+        }
+        // free right now? (both protocols: the TCP and UDP name spaces are kept apart from other users alike)
+        let free = if udp { std::net::UdpSocket::bind(("127.0.0.1", port)).is_ok() } else { std::net::TcpListener::bind(("127.0.0.1", port)).is_ok() };
+        if free {
             return PortLease { port, udp };
+        }
+        if let Some(s) = RESERVED.lock().unwrap_or_else(std::sync::PoisonError::into_inner).as_mut() {
+            s.remove(&(udp, port));
         }
     }
     panic!("cannot obtain a free loopback port");
+}
+
+/// Number of TCP sockets in TIME_WAIT in this network namespace.
+pub fn time_wait_count() -> Option<u64> {
+    let t = std::fs::read_to_string("/proc/net/sockstat").ok()?;
+    let line = t.lines().find(|l| l.starts_with("TCP:"))?;
+    let mut it = line.split_whitespace();
+    while let Some(w) = it.next() {
+        if w == "tw" {
+            return it.next()?.parse().ok();
+        }
+    }
+    None
 }
 
 /// A TCP port on which connections are refused for as long as the value lives: the socket is
@@ -210,8 +298,14 @@ pub async fn connect_tcp_entry(addr: SocketAddr, client_done: &AtomicBool, deadl
         }
         let last = match TcpStream::connect(addr).await {
             Ok(s) => {
-                let _ = s.set_nodelay(true);
-                return Ok(s);
+                // (cannot happen with pool ports; kept as a guard) a TCP self-connect is not the entry point
+                if s.local_addr().ok() == s.peer_addr().ok() {
+                    drop(s);
+                    "self-connect".to_string()
+                } else {
+                    let _ = s.set_nodelay(true);
+                    return Ok(s);
+                }
             }
             Err(e) => format!("{:?}", e.kind()),
         };
